@@ -506,62 +506,65 @@ def check_min_source(ck, fn, pointer_guarded):
 
 
 def check_padding(ck, fn, guarded, pointer):
-    loops = [s for s in kids(fn.body) if s["k"] == "ForStmt"]
-    ck.require(len(loops) == 1, "%s: expected one initialisation loop in the constructor" % fn.loc)
-    init, cond, inc, body = match.loop_parts(loops[0])
-    var = None
-    lo = None
-    for x in ir.walk(init):
-        if x["k"] == "VarDecl":
-            var, lo = x["did"], kids(x)[0]
-    ck.require(var is not None, "%s: loop variable not found" % fn.loc)
-    # lower bound: 0, ik_, ik_ - c
-    lo_kind = None
-    if const_int(lo) == 0:
-        lo_kind = "zero"
-    elif match.this_field(lo) == "ik_":
-        lo_kind = "ik"
-    else:
-        b = match.binop(lo, ("-",))
-        if b and match.this_field(b[1]) == "ik_" and (const_int(b[2]) or 0) >= 0:
-            lo_kind = "ik"
-    b = match.binop(cond, ("<", "!=", "<="))
-    up_kind = None
-    if b and ref_of(b[1]) == var:
-        if match.this_field(b[2]) == "k_" and b[0] in ("<", "!="):
-            up_kind = "k"
-        else:
-            bb = match.binop(b[2], ("*",))
-            if bb and b[0] in ("<", "!=") and ((const_int(bb[1]) == 2 and match.this_field(bb[2]) == "k_") or
-                                              (const_int(bb[2]) == 2 and match.this_field(bb[1]) == "k_")):
-                up_kind = "2k"
-    # index form of the stores and which fields are written
-    written = {}
-    idx_kind = None
-    for x in ir.walk(body):
-        bb = match.binop(x, ("=",))
-        if bb:
-            nf = node_field(bb[1])
-            if nf:
-                i = nf[0]
-                if ref_of(i) == var:
-                    k = "i"
-                else:
-                    p = match.binop(i, ("+",))
-                    k = None
-                    if p and ((ref_of(p[1]) == var and match.this_field(p[2]) == "k_") or
-                              (ref_of(p[2]) == var and match.this_field(p[1]) == "k_")):
-                        k = "i+k"
-                if k is None:
-                    raise dtable.Undecidable("%s: padding store index not understood: %s" % (fn.nloc(x), dtable.describe(i)))
-                idx_kind = k if idx_kind in (None, k) else "mixed"
-                written[nf[1]] = bb[2]
-    covers = (idx_kind == "i+k" and lo_kind in ("ik", "zero") and up_kind == "k") or \
-             (idx_kind == "i" and lo_kind == "zero" and up_kind == "2k")
-    if not covers:
-        ck.violation("PADDING", fn.qname, "range", "constructor loop does not cover all padding leaves [k_+ik_, 2k_): "
-                     "index %s, from %s while %s" % (idx_kind, dtable.describe(lo), dtable.describe(cond)), fn.nloc(loops[0]))
+    """PADDING: the constructor is evaluated on its skeleton for (ik_, k_) = (3, 4), (5, 8), (4, 4), (1, 1): every padding leaf
+    k_ + ik_ .. 2 k_ - 1 receives the 'exhausted' / sentinel value, whatever the form of the loop (index or pointer)"""
+    from engine import skel
+    bad = None
+    written_exprs = {}
+    for ik, k in ((3, 4), (5, 8), (4, 4), (1, 1), (6, 8)):
+        stores = {}
+
+        def elem_index(e, sk):
+            """index of the tree node an lvalue designates: losers_[i] or *(pointer into losers_)"""
+            e0 = strip_casts(e)
+            ip = match.index_parts(e0)
+            if ip and match.this_field(ip[0]) == TREE:
+                return sk.ev(ip[1])
+            if e0["k"] == "UnaryOperator" and e0.get("op") == "*":
+                return sk.ev(kids(e0)[0])
+            d = ref_of(e0)
+            if d is not None and d in sk.alias and isinstance(sk.alias[d], tuple) and sk.alias[d][0] in ("mem", "elem"):
+                return sk.alias[d][-1]
+            return None
+
+        def event(e, sk):
+            if "callee" in e and e.get("member_call") and kids(e) and match.this_field(kids(e)[0]) == TREE:
+                nm = e["callee"]["name"]
+                if nm in ("begin", "data", "cbegin"):
+                    return 0
+                if nm in ("end", "cend"):
+                    return 2 * k
+                if nm == "size":
+                    return 2 * k
+            bq = match.binop(e, ("=",)) if e["k"] in ("BinaryOperator", "CXXOperatorCallExpr") else None
+            if bq:
+                lhs = strip_casts(bq[1])
+                if lhs["k"] == "MemberExpr" and kids(lhs) and not match.this_field(lhs):
+                    base = kids(lhs)[0]
+                    idx = sk.ev(base) if lhs.get("arrow") else elem_index(base, sk)
+                    if isinstance(idx, int):
+                        stores.setdefault(lhs["member"], set()).add(idx)
+                        written_exprs[lhs["member"]] = bq[2]
+                        return None
+                    raise dtable.Undecidable("%s: padding store not understood: %s" % (fn.nloc(e), dtable.describe(e)))
+            return NotImplemented
+        env = {("field", "ik_"): ik, ("field", "k_"): k, ("field", TREE): 0}
+        sk = skel.Skel(fn, env, None, event, max_iter=64)
+        try:
+            sk.run(kids(fn.body))
+        except skel.Return:
+            pass
+        padding = set(range(k + ik, 2 * k))
+        fld = "sup" if (guarded and not pointer) else "keyp" if pointer else "key"
+        got = stores.get(fld, set())
+        if not padding <= got and bad is None:
+            bad = (ik, k, sorted(padding - got), fld)
+    if bad:
+        ik, k, miss, fld = bad
+        ck.violation("PADDING", fn.qname, "range", "constructor loop does not cover all padding leaves [k_+ik_, 2k_): with ik_ = %d, k_ = %d the leaves %s get no %s"
+                     % (ik, k, miss, fld), fn.loc)
         return
+    written = written_exprs
     # the padding value must be 'exhausted' / the sentinel
     okv = False
     if guarded and not pointer:
@@ -580,9 +583,9 @@ def check_padding(ck, fn, guarded, pointer):
         okv = v is not None and ref_of(v) == fn.params[1]["did"]
         what = "key = sentinel"
     if not okv:
-        ck.violation("PADDING", fn.qname, "value", "padding leaves are not initialised as exhausted/sentinel (%s expected)" % what, fn.nloc(loops[0]))
+        ck.violation("PADDING", fn.qname, "value", "padding leaves are not initialised as exhausted/sentinel (%s expected)" % what, fn.loc)
         return
-    ck.ok("PADDING", fn.full, "loop covers leaves [k_+ik_,2k_) (%s, %s..%s), %s" % (idx_kind, lo_kind, up_kind, what))
+    ck.ok("PADDING", fn.full, "every padding leaf [k_+ik_, 2k_) initialised for (ik_, k_) in {(3,4), (5,8), (4,4), (1,1), (6,8)}: %s" % what)
 
 
 def check_switch(ck, tu):
